@@ -60,7 +60,11 @@ where
                               // we loop here again
                         }
                         _ => {
-                            break;
+                            // not enough data for a msg with storage header. If no framing was
+                            // detected yet a (shorter) msg with serial header might still fit.
+                            if self.detected_storage_header {
+                                break;
+                            }
                         }
                     },
                 }
